@@ -103,6 +103,12 @@ class Check(BaseCheck):
         rng = gen.rng_for(self.seed, "c06s")
         p6 = np.array([[0, 0, 0], [1, 0, 0], [0, 1, 0], [0, 0, 1], [1, 1, 1], [-1, 0.2, 0.3]], float) + 0.05 * rng.normal(size=(6, 3))
         three = [dict(v=p6, t=gen.orient_tets_positive(p6, np.array([[0, 1, 2, 3], [1, 2, 3, 4], [0, 2, 1, 5]])), name="three-tets", tags={"three-tets"})]
+        # cap triangles (one vertex almost on the opposite edge, height/base 1e-6 .. 1e-7, far above the kernels' absolute guard): formulas that
+        # are algebraically equal to the cross-product ones (Heron, Lagrange) lose half of their digits here
+        for h in (1e-6, 3e-7, 1e-7):
+            sv, st = gen.sliver(rng, h)
+            for rot in range(3):
+                yield dict(kind="tri", v=sv, t=np.roll(st, rot, axis=1), f=gen.vfuncs(rng, sv)[0], X=rng.normal(size=(len(st), 3)), name="sliver", fdt="float64", xdt="float64")
         for kind, stream in (("tri", gen.tria_stream(self.seed + 4, 30 if self.quick else 200, "small", first=("fan3", "tetra-surface"))),
                              ("tet", itertools.chain(three, gen.tet_stream(self.seed + 4, 16 if self.quick else 100, "small")))):
             for kk, c in enumerate(stream):
